@@ -8,7 +8,7 @@ REAL class with an interposed, scripted epoll_wait under the virtual clock; Batc
 operation (epoll_wait arguments, handler call sequences, callback, throw, elapsed time, all statistics, config read-back).
 Two deviations of the code from its documentation are accepted by name and reported as OBSERVATION (the check stays green);
 anything else that differs is a VIOLATION."""
-import os, re, json
+import os, re, json, bisect
 from concurrent.futures import ThreadPoolExecutor
 import vf
 
@@ -108,6 +108,10 @@ def run(ck, only_cases=None):
     if res is None:
         return
     events, execs, v = res
+    resets = [i for i, e in enumerate(events, 1) if e["e"] == "Reset"]
+
+    def xof(line):                                      # = vf.exec_index_of_line, O(log n)
+        return bisect.bisect_left(resets, line)
     ck.evaluations += len(execs)
     nonempty = {lines[i] for i, e in enumerate(execs) if any(x["e"] == "Batch" and x["res"] == "ok" for x in e[1])}
     ck.nontrivial = len(nonempty)
@@ -133,7 +137,7 @@ def run(ck, only_cases=None):
     ck.sample({"kind": "operation sequence from the TLC graph", "case": lines[0], "events": execs[0][1][:6]})
     if v.violated or not v.accepted:
         line = max(1, v.maxl if not v.violated else v.maxl - 1)
-        x = vf.exec_index_of_line(events, line)
+        x = xof(line)
         rp = ck.save_replay("reject_%d" % x, {"trace.ndjson": "\n".join(json.dumps(e) for e in execs[x][1]) + "\n", "case.txt": lines[x] + "\n",
                                              "tlc.out": v.out[-6000:]})
         ev = events[min(line, len(events)) - 1]
@@ -153,7 +157,7 @@ def run(ck, only_cases=None):
             continue
         byx = {}
         for k in sorted(seen[name]):
-            byx.setdefault(vf.exec_index_of_line(events, k), k)
+            byx.setdefault(xof(k), k)
         x = min(byx, key=lambda i: (len(lines[i].split()), i))      # the shortest case that shows it
         ln = byx[x]
         ev = events[ln - 1]
@@ -165,7 +169,7 @@ def run(ck, only_cases=None):
     # self-test: with AcceptObserved = FALSE (only the promised behaviour) an ordinary execution is accepted and exactly the
     # executions that show an observation are rejected
     if probe and only_cases is None:
-        obs_execs = {vf.exec_index_of_line(events, k) for s_ in seen.values() for k in s_}
+        obs_execs = {xof(k) for s_ in seen.values() for k in s_}
         ok_line = next(l for i, l in enumerate(lines) if i not in obs_execs)
         with ThreadPoolExecutor(max_workers=2) as ex:
             futs = [(n, ex.submit(run_cases, ck, [ok_line, ln], "x11strict_" + n, True)) for n, ln in probe]
@@ -217,7 +221,7 @@ def generate(ck, thorough, cfgs, sets):
     for a, (tk, gn) in R["promised"].coverage.items():
         if a in ACTIONS:
             ck.cov[a] = gn
-    ck.exhaustive = "BatchProc.tla, 3 descriptors x 2 tokens, 5 configurations, %d operations: all reachable states" % maxops
+    ck.exhaustive = "BatchProc.tla, 3 descriptors x 2 tokens, %d configurations x %d handler sets, %d operations: all reachable states" % (len(cfgs), len(sets), maxops)
     # ---- self-test: every slip is reported, its counterexample becomes a directed probe -------------------------------------
     lines = []
     for d, inv in DEVS.items():
@@ -248,7 +252,7 @@ def generate(ck, thorough, cfgs, sets):
                 args = ["0", args[1]]
             ops.append(op_of(name, args, cfgs, sets))
         return ("real " if real else "") + " ".join(ops + ["D"])
-    paths, covered, total = g.transition_cover(ck.rng, maxlen=30, limit=None if thorough else 350)
+    paths, covered, total = g.transition_cover(ck.rng, maxlen=30, limit=20000 if thorough else 350)
     walks = [g.walk_to_end(ck.rng.choice(g.init), ck.rng, ck.rng.randrange(6, 40)) for _ in range(4000 if thorough else 250)]
     ck.note("plan graph (%s, as-built flags): %d states, %d edges; %d cover paths take %d edges, %d random walks" % (
         "PlanView" if thorough else "PlanViewQ", len(g.nodes), total, len(paths), covered, len(walks)))
